@@ -43,6 +43,21 @@ Proof.
 Qed.
 Print Assumptions C02_no_step_after_end_refuted.
 
+(* THE trace-level statement: at the end of the blocking run call of r, every coroutine payload of r that
+   had been started has either finished by itself, or was cancelled and LATER completed its cleanup --
+   both strictly before the end (outside the finding class) *)
+Theorem C02_cancel_cleanup_before_end_partial :
+  forall tr1 r o s p f tid loop other ok,
+    run init (tr1 ++ [AcceptEnd r o]) = Some s -> o <> AExclusive ->
+    In (Start p f tid loop other ok) tr1 ->
+    forall s1, run init tr1 = Some s1 ->
+    r_loopkill (run_ s1 r) = false ->
+    p_owner (pay s1 p) = r -> coroutine (p_flav (pay s1 p)) = true -> background s1 p ->
+    (exists o', In (Finish p o') tr1) \/
+    (exists a b, tr1 = a ++ Cancelled p :: b /\ In (CleanupDone p) b).
+Proof. exact C02_cancel_cleanup_before_end. Qed.
+Print Assumptions C02_cancel_cleanup_before_end_partial.
+
 (* cancellation strictly precedes cleanup: per payload, #Cancelled = #CleanupDone (+1 while cleaning) *)
 Theorem C02_cancel_before_cleanup :
   forall tr s, run init tr = Some s -> cleanup_ok s.
